@@ -4,7 +4,7 @@ from __future__ import annotations
 import ast
 
 from ..fold import Scope, dotted, src
-from .common import (ctx, ff_for, find_calls, own_nodes)
+from .common import (ctx, ff_for, find_calls, only_rejects, own_nodes)
 
 V = "canopen/variable.py"
 OD = "canopen/objectdictionary/__init__.py"
@@ -115,7 +115,7 @@ def run(chk):
         tries = [n for n in own_nodes(f.node) if isinstance(n, ast.Try)]
         ok = len(tries) == 1 and [src(s_) for s_ in tries[0].body] == ["bits = self.bit_definitions[bits]"] and len(tries[0].handlers) == 1 \
             and {dotted(e) for e in (tries[0].handlers[0].type.elts if isinstance(tries[0].handlers[0].type, ast.Tuple) else [tries[0].handlers[0].type])} >= {"TypeError", "KeyError"} \
-            and all(isinstance(s_, ast.Pass) for s_ in tries[0].handlers[0].body)
+            and only_rejects(tries[0].handlers[0].body, f.cls)
         chk.check(ok, "R2", f"{OD}:{f.qualname} | defined names resolved through bit_definitions", f.loc(), "")
         loops = [n for n in own_nodes(f.node) if isinstance(n, ast.For)]
         ok = len(loops) == 1 and src(loops[0].iter) == "bits" and [src(s_) for s_ in loops[0].body] == [f"mask |= 1 << {src(loops[0].target)}"]
